@@ -384,7 +384,14 @@ func buildWebP(c Case, variant int) Built {
 	for k, a := range c.File {
 		switch a.T {
 		case "VP8":
-			chunks = append(chunks, gen.VP8(uint16(a.W), uint16(a.H), byte(a.WS), byte(a.HS), gen.VP8Body(32+2*variant)))
+			// the frame tag's other fields (bitstream version, show_frame, the 19-bit size of the first
+			// partition) take all their values across the files: dimensions do not depend on them
+			sizes := []int{32 + 2*variant, 300, 1100, 2100, 4100, 32 + 2*variant, 3000, 32 + 2*variant}
+			n := sizes[int(a.W+3*a.H)%len(sizes)]
+			if (a.W+a.H)%97 == 0 {
+				n = []int{9000, 20000, 40000, 70000, 140000, 270000, 524287}[int(a.W+a.H)/97%7]
+			}
+			chunks = append(chunks, gen.VP8Tag(uint16(a.W), uint16(a.H), byte(a.WS), byte(a.HS), gen.VP8Body(n), byte((a.W+a.H)%4), (a.W+2*a.H)%5 != 0))
 		case "VP8L":
 			chunks = append(chunks, gen.VP8L(uint32(a.W), uint32(a.H), a.Alpha, gen.Payload(20+variant, 3, false)))
 		case "VP8X":
